@@ -108,7 +108,7 @@ func replayNative(ld *Loaded, spec HarnessSpec, v Violation) (bool, string, stri
 	ok := false
 	for a := 0; a < attempts && !ok; a++ {
 		out, err = runNative(replaySpec(spec), tag, modelFile, 240*time.Second)
-		ok = confirms(v, out)
+		ok = confirms(v, out, spec.POR)
 	}
 	if err != nil && !ok {
 		out += "\n[replay error: " + err.Error() + "]"
@@ -126,12 +126,17 @@ func labelClass(l string) string {
 	return l
 }
 
-func confirms(v Violation, out string) bool {
+func confirms(v Violation, out string, byClass bool) bool {
 	ok := false
 	switch v.Kind {
 	case "assert":
 		for _, line := range strings.Split(out, "\n") {
-			if strings.HasPrefix(line, "ZZ-VIOLATED ") && labelClass(strings.TrimPrefix(line, "ZZ-VIOLATED ")) == labelClass(v.Label) {
+			if !strings.HasPrefix(line, "ZZ-VIOLATED ") {
+				continue
+			}
+			got := strings.TrimPrefix(line, "ZZ-VIOLATED ")
+			// schedule-dependent harnesses: symmetric schedules may permute the instance
+			if got == v.Label || (byClass && labelClass(got) == labelClass(v.Label)) {
 				ok = true
 			}
 		}
